@@ -456,6 +456,8 @@ func TestC14(t *testing.T) {
 			mine = append(mine, n)
 		}
 	}
+	// names with runs of white space and with white-space runes other than U+0020 (each in every shard)
+	mine = append(mine, "unit  price", "a\tb", "a\u00a0b", "a \t b", "x\u3000y", "two  words  here", " lead", "trail  ")
 	c.Extra("enumerated_names", len(mine))
 	seen := map[string]bool{}
 	var runCases []*RunCase
